@@ -406,7 +406,7 @@ def make_limit_sampler(cfg_of):
                     v.append(f'step {sched.step}: stage {name} has {occ} queued-or-running tasks (limit {cap})')
         bufs = getattr(run, 'live_buffers', None)
         if bufs is not None:
-            live = [b for b in bufs if not b.closed and not getattr(b, 'dead', False)]
+            live = [b for b in bufs if not b.closed and (not getattr(b, 'dead', False) or getattr(b, 'pinned', False))]
             run.max_buffers = max(getattr(run, 'max_buffers', 0), len(live))
             lim = cfg['max_in_memory_upload_chunks'] + cfg['max_submission_concurrency']
             if len(live) > lim and len(v) < 3:
@@ -414,7 +414,7 @@ def make_limit_sampler(cfg_of):
             big = max(cfg['multipart_chunksize'], cfg['multipart_threshold'])
             # bytes read from user streams and not yet released by a finished part body
             read = getattr(run, 'stream_bytes_read', [0])[0]
-            released = sum(b.size0 for b in bufs if b.closed or getattr(b, 'dead', False))
+            released = sum(b.size0 for b in bufs if b.closed or (getattr(b, 'dead', False) and not getattr(b, 'pinned', False)))
             held = read - released
             run.max_held = max(getattr(run, 'max_held', 0), held)
             if held > lim * big and len(v) < 3:
